@@ -6,6 +6,7 @@ import (
 	"crypto/cipher"
 	"crypto/ed25519"
 	"crypto/hmac"
+	crand "crypto/rand"
 	"crypto/sha512"
 	"encoding/binary"
 	"encoding/hex"
@@ -615,6 +616,11 @@ func keyfileCase(c *Ctx, dir string, entropy []byte, pw string, flips int) {
 
 func init() {
 	register("wallet", func(c *Ctx) {
+		// the real Encrypt draws salt and nonce from crypto/rand.Reader: feed it from the seeded PRNG so that a trace is a
+		// function of --seed (replays reproduce the same key files)
+		oldReader := crand.Reader
+		crand.Reader = c.R
+		defer func() { crand.Reader = oldReader }()
 		// 1. path grammar
 		pathCase := func(p string) {
 			r := wallet.IsValidPathVerif(p)
